@@ -123,7 +123,7 @@ def main():
         valid = (rec['patch_applies'] and rc0 == 0 and rc1 == 1
                  and rec['baseline_ok'])
         rec['valid_seed'] = valid
-        if valid or keep:
+        if (valid or keep) and not os.environ.get('T4GC_SEEDED_NOWRITE'):
             dst = os.path.join(HERE, 'seeded', seed_id)
             os.makedirs(dst, exist_ok=True)
             if os.path.abspath(dst) != os.path.abspath(src):
